@@ -125,6 +125,35 @@ def main():
                 res.fail(f"sweep:conjugation:{name}", f"U P U^dag != c P' (dist {d:.2e}, c={rr[1]})", inp)
     res.sample({"gate": cases[0][0], "qubits": cases[0][1], "label": cases[0][2], "impl": str(real[0])})
     res.sample({"gate": cases[1][0], "qubits": cases[1][1], "label": cases[1][2], "impl": str(real[1])})
+    # (4) rotation-kind gates at Clifford angles (multiples of pi/2): the kinds are not in CLIFFORD_GATE_NAMES, so the call
+    # may reject them; if it answers, the answer must satisfy U P U^dag = c P'
+    import math
+    for _ in range(60 if a.tier == "quick" else 600):
+        n = rng.choice([1, 2, 3])
+        q = rng.randrange(n)
+        kname = rng.choice(["RX", "RY", "RZ", "U1", "U2", "U3", "PauliRotation"])
+        ks = [rng.randint(-4, 4) for _ in range(3)]
+        if kname in ("RX", "RY", "RZ", "U1"):
+            g = getattr(gates, kname)(q, ks[0] * math.pi / 2)
+        elif kname == "U2":
+            g = gates.U2(q, ks[0] * math.pi / 2, ks[1] * math.pi / 2)
+        elif kname == "U3":
+            g = gates.U3(q, ks[0] * math.pi / 2, ks[1] * math.pi / 2, ks[2] * math.pi / 2)
+        else:
+            g = gates.PauliRotation([q], [rng.randint(1, 3)], ks[0] * math.pi / 2)
+        lab = [(i, rng.randint(1, 3)) for i in range(n) if i == q or rng.random() < 0.5]
+        inp = {"gate": kname, "qubit": q, "angle_multiples_of_pi_2": ks, "label": lab}
+        res.count(("clifford-angle", kname, q, tuple(ks), tuple(lab)), bucket="clifford-angle rotation kinds")
+        try:
+            pl, c = clifford_gate_conjugation(g, PauliLabel(lab))
+        except (ValueError, NotImplementedError, KeyError):
+            continue
+        U = O.circuit_unitary([g], n)
+        P = O.pauli_label_matrix(lab, n)
+        Pp = O.pauli_label_matrix(sorted((int(i), int(p_)) for i, p_ in pl), n)
+        d = np.max(np.abs(U @ P @ U.conj().T - c * Pp))
+        if d > 1e-9:
+            res.fail(f"sweep:conjugation:clifford_angle:{kname}", f"accepted, but U P U^dag != c P' (dist {d:.2e}, c={c})", inp)
     # (3) Pauli gate must raise
     try:
         clifford_gate_conjugation(gates.Pauli([0, 1], [1, 2]), PauliLabel([(0, 3)]))
